@@ -29,6 +29,8 @@ def api_potentials(m, container="list", wrap=None):
         f = b.potdef(pd)
         if wrap is not None:
             f = wrap("pair", (a, bb), f)
+        if m.get("int_returns"):
+            f = build_api.int_returns(f)
         pots.append(ap.Potential(a, bb, f))
     if container == "tuple":
         return tuple(pots)
